@@ -259,6 +259,16 @@ func (m *mutCollector) walkBenign(body ast.Node) {
 					m.add("eq-mirror", x.Pos(), x.End(), "("+m.text(x.Y)+") "+mir+" ("+m.text(x.X)+")")
 				}
 			case token.EQL, token.NEQ:
+				// len(x) == 0  ->  len(x) < 1 ; len(x) != 0 -> len(x) >= 1
+				if call, ok := x.X.(*ast.CallExpr); ok {
+					if fn, ok := call.Fun.(*ast.Ident); ok && fn.Name == "len" && m.text(x.Y) == "0" {
+						if x.Op == token.EQL {
+							m.add("eq-lenzero", x.Pos(), x.End(), m.text(x.X)+" < 1")
+						} else {
+							m.add("eq-lenzero", x.Pos(), x.End(), m.text(x.X)+" >= 1")
+						}
+					}
+				}
 				if pureOperand(x.X) && pureOperand(x.Y) {
 					if _, isNil := x.Y.(*ast.Ident); !(isNil && m.text(x.Y) == "nil") {
 						m.add("eq-commute", x.Pos(), x.End(), "("+m.text(x.Y)+") "+x.Op.String()+" ("+m.text(x.X)+")")
@@ -270,6 +280,19 @@ func (m *mutCollector) walkBenign(body ast.Node) {
 				if eb, ok := x.Else.(*ast.BlockStmt); ok {
 					// if c {A} else {B}  ->  if !(c) {B} else {A}
 					m.add("eq-flipif", x.Pos(), x.End(), "if !("+m.text(x.Cond)+") "+m.text(eb)+" else "+m.text(x.Body))
+				}
+			}
+			if be, ok := x.Cond.(*ast.BinaryExpr); ok && x.Init == nil {
+				switch be.Op {
+				case token.LAND:
+					// De Morgan:  a && b  ->  !(!(a) || !(b))
+					m.add("eq-demorgan", x.Cond.Pos(), x.Cond.End(), "!(!("+m.text(be.X)+") || !("+m.text(be.Y)+"))")
+					if x.Else == nil {
+						// if a && b {X}  ->  if a { if b {X} }
+						m.add("eq-nestif", x.Pos(), x.End(), "if "+m.text(be.X)+" { if "+m.text(be.Y)+" "+m.text(x.Body)+" }")
+					}
+				case token.LOR:
+					m.add("eq-demorgan", x.Cond.Pos(), x.Cond.End(), "!(!("+m.text(be.X)+") && !("+m.text(be.Y)+"))")
 				}
 			}
 		case *ast.AssignStmt:
@@ -291,6 +314,23 @@ func (m *mutCollector) walkBenign(body ast.Node) {
 					m.add("eq-expandop", x.Pos(), x.End(), id.Name+" -= 1")
 				}
 			}
+		case *ast.RangeStmt:
+			// for _, v := range xs {  ->  for zzI := range xs { v := xs[zzI]; (slices, xs a plain name or selector)
+			if id, ok := x.Key.(*ast.Ident); ok && id.Name == "_" && x.Value != nil && x.Tok == token.DEFINE {
+				if v, ok := x.Value.(*ast.Ident); ok && v.Name != "_" {
+					if t := info.TypeOf(x.X); t != nil {
+						_, isSlice := t.Underlying().(*types.Slice)
+						plain := false
+						switch x.X.(type) {
+						case *ast.Ident, *ast.SelectorExpr:
+							plain = true
+						}
+						if isSlice && plain {
+							m.add("eq-rangeidx", x.Pos(), x.Body.Lbrace+1, "for zzI := range "+m.text(x.X)+" { "+v.Name+" := "+m.text(x.X)+"[zzI];")
+						}
+					}
+				}
+			}
 		case *ast.ReturnStmt:
 			if len(x.Results) == 1 {
 				if t := info.TypeOf(x.Results[0]); t != nil {
@@ -302,6 +342,64 @@ func (m *mutCollector) walkBenign(body ast.Node) {
 		}
 		return true
 	})
+}
+
+// renameLocals: one edit per function that renames up to three local variables consistently (all their occurrences).
+func (m *mutCollector) renameLocals(fd *ast.FuncDecl) {
+	info := m.pkg.TypesInfo
+	type occ struct{ pos, end token.Pos }
+	byObj := map[types.Object][]occ{}
+	var order []types.Object
+	ast.Inspect(fd.Body, func(n ast.Node) bool {
+		id, ok := n.(*ast.Ident)
+		if !ok || id.Name == "_" {
+			return true
+		}
+		obj := info.Defs[id]
+		if obj == nil {
+			obj = info.Uses[id]
+		}
+		v, isVar := obj.(*types.Var)
+		if !isVar || v.IsField() || v.Pkg() == nil || v.Parent() == nil || v.Parent() == v.Pkg().Scope() {
+			return true
+		}
+		if v.Pos() < fd.Body.Pos() || v.Pos() > fd.Body.End() {
+			return true // parameters and results keep their names (they may be documented)
+		}
+		if _, seen := byObj[obj]; !seen {
+			order = append(order, obj)
+		}
+		byObj[obj] = append(byObj[obj], occ{id.Pos(), id.End()})
+		return true
+	})
+	if len(order) == 0 {
+		return
+	}
+	if len(order) > 3 {
+		order = order[:3]
+	}
+	// build the new body text
+	start, end := fd.Body.Pos(), fd.Body.End()
+	s0 := m.prog.Fset.Position(start).Offset
+	text := []byte(m.text(fd.Body))
+	var all []occ
+	names := map[token.Pos]string{}
+	for _, o := range order {
+		for _, oc := range byObj[o] {
+			all = append(all, oc)
+			names[oc.pos] = o.Name() + "Zr"
+		}
+	}
+	sort.Slice(all, func(i, j int) bool { return all[i].pos > all[j].pos })
+	for _, oc := range all {
+		a := m.prog.Fset.Position(oc.pos).Offset - s0
+		b := m.prog.Fset.Position(oc.end).Offset - s0
+		if a < 0 || b > len(text) || a > b {
+			return
+		}
+		text = append(append(append([]byte{}, text[:a]...), []byte(names[oc.pos])...), text[b:]...)
+	}
+	m.add("eq-rename", start, end, string(text))
 }
 
 func enumerateMutants(prog *Program) []*mutant {
@@ -336,6 +434,9 @@ func enumerateEdits(prog *Program, benign bool) []*mutant {
 				}
 				mc := &mutCollector{benign: benign, prog: prog, pkg: pk, src: src, file: name, fn: fn, out: &out}
 				mc.walk(fd.Body)
+				if benign {
+					mc.renameLocals(fd)
+				}
 			}
 		}
 	}
